@@ -14,7 +14,7 @@ CLAIMS = {
         'text': 'Decides for all CFG paths that fetched headers/transactions are persisted, matched blocks marked proved and block '
                 'bodies stored/indexed only behind: an outstanding request, equality of last hash and of requested hashes, PoW, MMR '
                 'proof, (v1) extra hash, (txs) the Merkle root compared with transactions_root, the proved flag, and the body '
-                'commitment (transactions root and extra hash recomputed from the downloaded body). Structural necessary conditions.',
+                'commitment (transactions root and extra hash recomputed from the downloaded body); that the CBMT root comes from the strict local implementation (F31) and that a matched-blocks record kept across a fork loses its proved flags (F42). Structural necessary conditions.',
         'note': 'Not decided: MMR / Merkle arithmetic (trusted libraries); which peer serves which request.',
     },
     'C11': {
@@ -32,7 +32,7 @@ CLAIMS = {
                 'candidate.total_difficulty() > stored (operator, operand order and provenance checked), that the stored triple '
                 'derives from the same candidate prove state, that the byte layout written equals the layout read back after a restart, '
                 'and that the child fast path requires header verification, parenthood, strictly greater difficulty and a chain-root '
-                'comparison with the proven parent. Necessary conditions; ancestry of the last-N window is a value clause.',
+                'comparison with the proven parent (same epoch and compact target, F36); that a proof is committed only after the total difficulties of its continuous headers, ending with the last header, were chained (F43). Necessary conditions; ancestry of the last-N window is a value clause.',
         'note': 'Not decided: that last-N headers are ancestors; real restart behaviour (only layout agreement is decided).',
     },
     'C18': {
@@ -41,7 +41,7 @@ CLAIMS = {
                 'and its parts can succeed only after each verifier accepted, every resolved cell was Live and no input repeated; that '
                 'the pool insert is always followed by the size test with eviction; that a hash is announced to a peer only on the '
                 'first insert into its announced set and all RelayTransactionHashes come from that function; that pending status comes '
-                'from a pool hit after a store miss. Script/capacity/since semantics are trusted (ckb-verification).',
+                'from a pool hit after a store miss; that the hardfork compatibility verifier is part of the chain (F38) and that the headers of the median-time walk are resolvable or an error (F39). Script/capacity/since semantics are trusted (ckb-verification).',
         'note': 'Not decided: verifier semantics; that re-submission resets the announced-peer set; cycles arithmetic.',
     },
     'C17': {
@@ -93,7 +93,7 @@ CLAIMS = {
         'text': 'Decides structural necessary conditions of index == chain: a TxHash record is written with the placeholder tx_index only '
                 'after consulting the existing record (the stored index addresses cell keys on spend/rollback); matched blocks are indexed in '
                 'block-number order and script numbers rise only after the whole batch; every key/value reader slices at the offsets the '
-                'writer produces; only the synchronizer (and set_scripts for genesis) indexes blocks. The equality of index and chain over '
+                'writer produces; only the synchronizer (and set_scripts for genesis) indexes blocks; a block is indexed only for the scripts that have not passed it (F41). The equality of index and chain over '
                 'all histories is a value clause and is NOT decided.',
         'note': 'Not decided: index == chain over generated histories, script sets and RPC interleavings (the main clause).',
     },
@@ -102,7 +102,7 @@ CLAIMS = {
         'text': 'Decides that the three queries slice keys and stored transactions at the offsets written by append_key / Value::Transaction; '
                 'that get_cells_capacity applies exactly the filter comparisons of get_cells and the grouped/ungrouped transaction branches the '
                 'same half-open block range; that all reads go through one snapshot; that limit == 0 is rejected and the cursor entry is skipped '
-                'iff a cursor was given. Exactly-once pagination, order reversal, grouping and the capacity sum are value clauses, not decided.',
+                'iff a cursor was given; that records selected by a key prefix are used only when the key is long enough for the prefix and the fixed tail (F40: no delimiter after the script args). Exactly-once pagination, order reversal, grouping and the capacity sum are value clauses, not decided.',
         'note': 'Not decided: pagination exactness, desc = reverse(asc), grouped = group(ungrouped), capacity = sum over cells.',
     },
     'C08': {
